@@ -186,7 +186,9 @@ func (hc *HostConfigOptional) MergeWith(other *HostConfigOptional) {
 	if other.AutoSelfSign != nil {
 		hc.AutoSelfSign = other.AutoSelfSign
 	}
-	hc.CAFiles = append(hc.CAFiles, other.CAFiles...)
+	// hc may be a shallow copy (see MatchHost) whose CAFiles still shares its
+	// backing array with the block it was copied from: never append in place.
+	hc.CAFiles = append(hc.CAFiles[:len(hc.CAFiles):len(hc.CAFiles)], other.CAFiles...)
 	if other.ServerName != nil {
 		hc.ServerName = other.ServerName
 	}
